@@ -139,7 +139,7 @@ func p5opts() []searchOpt {
 func phase5() {
 	n, maxFiles := 4, 4
 	if r.Thorough() {
-		n, maxFiles = 6, 4
+		n, maxFiles = 5, 4
 	}
 	var logs []blog
 	for _, s := range allSeqs("mM", n) {
@@ -164,7 +164,7 @@ func phase5() {
 		long := "MVPBBTMRXVBM"
 		rot := make([]int, len(long))
 		rot[3], rot[6], rot[8] = 1, 1, 2
-		logs = append(logs, mkBlog(long, 0, rot), mkBlog(long, 0, make([]int, len(long))))
+		logs = append(logs, mkBlog(long, 0, rot))
 	}
 	type job struct {
 		b    blog
